@@ -35,6 +35,8 @@ func init() {
 			{ID: "C10.R14", Floor: 5, Run: lookupBeforeLock, Text: "the registered-filter lookup comes before the lock (= C09.R14): using an unregistered handle panics without leaving the world locked"},
 			{ID: "C10.R15", Floor: 2, Run: queryIntParamsRangeChecked, Text: "int arguments of query methods are not truncated (= C03.R16): a query index ≥ 2^32 is out of range and panics"},
 			{ID: "C10.R16", Floor: 2, Run: sameTargetSkipChecked, Text: "the same-target shortcut comes after the relation check: wherever a table's RelationTarget is compared with the requested target to skip the work, the relation check (flag and id) of that table dominates the comparison"},
+			{ID: "C10.R17", Floor: 1, Run: compileGuardFlag, Text: "a failed generic compilation changes nothing that later calls rely on (= C09.R18)"},
+			{ID: "C10.R18", Floor: 1, Run: c09r5, Text: "registration under lock is rolled back completely (= C09.R5 = C16.R6): a failed registration leaves no relation flag behind"},
 		},
 	})
 }
